@@ -266,20 +266,39 @@ func runC06(c *Ctx) {
 			c.Unresolved("C06.paths-agree", "subscribe.addSubscription / processSubscription")
 			return
 		}
-		check := func(f *ssa.Function, callee string, argIdx int) {
+		check := func(f *ssa.Function, callee string, argIdx int, valid func(seq []string) bool, shape string) {
 			c.Analysed(fnName(f))
 			n := 0
-			for _, ci := range callsIn(f) {
+			var cis []ssa.CallInstruction
+			for _, g := range withAnon(f) {
+				cis = append(cis, callsIn(g)...)
+			}
+			for _, ci := range cis {
 				if calleeName(ci.Common()) != callee {
 					continue
 				}
 				n++
-				bad := indexSources(ci.Common().Args[argIdx], map[ssa.Value]bool{})
-				c.Check(len(bad) == 0, "C06.paths-agree", fnName(f), "index passed to "+callee, P.Pos(ci.Pos()), "non-ToStrings sources: "+strings.Join(bad, ", "))
+				seqs := indexSeqs(ci.Common().Args[argIdx])
+				ok := len(seqs) > 0
+				for _, s := range seqs {
+					if !valid(s) {
+						ok = false
+					}
+				}
+				c.Check(ok, "C06.paths-agree", fnName(f), "index passed to "+callee, P.Pos(ci.Pos()), "composed as "+seqsString(seqs)+"; required "+shape)
 			}
 			c.Floor("C06.paths-agree/"+fnName(f), n, 1)
 		}
-		check(addSub, "(*match.Match).AddQuery", 1)
+		regShape := func(s []string) bool {
+			j := strings.Join(s, " ")
+			return j == "T:true T:false" || j == "T:true origin T:false"
+		}
+		updShape := func(s []string) bool {
+			j := strings.Join(s, " ")
+			return j == "param:"+un.Params[3].Name()+" T:false" || j == "T:true T:false"
+		}
+		pfxShape := func(s []string) bool { return strings.Join(s, " ") == "T:true" }
+		check(addSub, "(*match.Match).AddQuery", 1, regShape, "ToStrings(prefix, true) [origin] ToStrings(path, false)")
 		// each registration depends only on the list prefix and its own subscription:
 		// no loop-carried value (other than the range index) flows into the query
 		c.Rule("C06.query-independent", "in addSubscription the query given to AddQuery for one subscription does not depend on a loop-carried variable (state leaking from earlier subscriptions of the list), only on the list prefix and that subscription")
@@ -341,7 +360,33 @@ func runC06(c *Ctx) {
 			w(ci.Common().Args[1])
 			c.Check(len(carried) == 0, "C06.query-independent", fnName(addSub), "query of one subscription is independent of the others", P.Pos(ci.Pos()), "loop-carried values in the query: "+strings.Join(carried, ", "))
 		}
-		check(un, "(*match.Match).UpdateOnce", 2)
+		check(un, "(*match.Match).UpdateOnce", 2, updShape, "<prefix parameter> ToStrings(path, false)")
+		// the prefix parameter is ToStrings(notification prefix, true) at every caller
+		nCallers := 0
+		var callers []*ssa.Function
+		for _, mp := range P.ModPkgs() {
+			callers = append(callers, P.PkgFuncs(strings.TrimPrefix(mp, modPath+"/"))...)
+		}
+		for _, f := range callers {
+			if P.InTestFile(f) {
+				continue
+			}
+			for _, ci := range callsIn(f) {
+				if staticCallee(ci.Common()) != un {
+					continue
+				}
+				nCallers++
+				seqs := indexSeqs(ci.Common().Args[3])
+				ok := len(seqs) > 0
+				for _, s := range seqs {
+					if !pfxShape(s) {
+						ok = false
+					}
+				}
+				c.Check(ok, "C06.paths-agree", fnName(f), "prefix index passed to UpdateNotification", P.Pos(ci.Pos()), "composed as "+seqsString(seqs)+"; required ToStrings(prefix, true)")
+			}
+		}
+		c.Floor("C06.paths-agree/UpdateNotification-callers", nCallers, 1)
 		// snapshot path via CompletePath
 		n := 0
 		for _, ci := range callsIn(procSub) {
